@@ -30,6 +30,10 @@ pub struct PeerSpec {
     pub drain: bool,
     /// the peer only polls, never advances
     pub poll_only: bool,
+    /// with `use_wait`: call advance_frame_with_wait_timeout with this timeout instead of
+    /// advance_frame_with_wait
+    #[serde(default)]
+    pub wait_timeout_ms: Option<u64>,
 }
 
 impl PeerSpec {
@@ -48,6 +52,7 @@ impl PeerSpec {
             use_wait: false,
             drain: true,
             poll_only: false,
+            wait_timeout_ms: None,
         }
     }
 }
@@ -186,6 +191,10 @@ pub struct Scenario {
     /// instant of virtual time
     #[serde(default)]
     pub extra_polls: bool,
+    /// network_stats() is taken for the host<->spectator link (the host asks for its first
+    /// spectator's handle, the spectator for its host) instead of the first remote player
+    #[serde(default)]
+    pub stats_spectator: bool,
 }
 
 impl Scenario {
@@ -219,6 +228,7 @@ impl Scenario {
             scripted_stalls: Vec::new(),
             no_checksum: Vec::new(),
             extra_polls: false,
+            stats_spectator: false,
         }
     }
 
@@ -243,5 +253,72 @@ impl Scenario {
         self.script
             .iter()
             .any(|s| matches!(s.action, Action::Die | Action::Disconnect { .. }))
+    }
+}
+
+impl Scenario {
+    /// Driver features of this scenario (for the coverage audit of the closed system: which
+    /// combinations of configuration, application behaviour and fault kind were driven at all).
+    pub fn features(&self, k: Option<usize>, stateful: bool) -> Vec<String> {
+        let mut f: Vec<String> = Vec::new();
+        let cls = |x: usize, cuts: &[usize]| -> String {
+            let mut lo = 0usize;
+            for &c in cuts {
+                if x < c {
+                    return if c - lo == 1 { format!("{lo}") } else { format!("{lo}..{}", c - 1) };
+                }
+                lo = c;
+            }
+            format!("{lo}+")
+        };
+        f.push(format!("peers={}", self.peers.len().min(4)));
+        f.push(format!("max-locals={}", self.peers.iter().map(|p| p.locals.len()).max().unwrap_or(0).min(2)));
+        f.push(format!("spectators={}", self.specs.len().min(2)));
+        let w = self.peers.iter().map(|p| p.window).min().unwrap_or(0);
+        f.push(format!("window={}", cls(w, &[1, 2, 3, 9])));
+        let d = self.peers.iter().map(|p| p.delay).max().unwrap_or(0);
+        f.push(format!("delay={}", cls(d, &[1, 3])));
+        f.push(format!("delay>window={}", self.peers.iter().any(|p| p.delay > p.window && p.window > 0)));
+        f.push(format!("sparse={}", self.peers.iter().any(|p| p.sparse)));
+        let ds = self.peers.iter().map(|p| p.desync).max().unwrap_or(0);
+        f.push(format!("desync={}", cls(ds as usize, &[1, 2])));
+        f.push(format!("pred={:?}", self.pred));
+        f.push(format!("program={:?}", self.program));
+        f.push(format!("latency={}", cls(self.latency.max(0) as usize, &[1, 2, 4])));
+        f.push(format!("uneven-ticks={}", self.peers.iter().any(|p| p.tick_every != 1)));
+        f.push(format!("lockstep-wait={}", self.peers.iter().any(|p| p.use_wait)));
+        f.push(format!("undrained={}", self.peers.iter().any(|p| !p.drain) || self.specs.iter().any(|p| !p.drain)));
+        f.push(format!("poll-only-peer={}", self.peers.iter().any(|p| p.poll_only)));
+        f.push(format!("polls-between-ticks={}", self.extra_polls || self.script.iter().any(|i| i.action == Action::Poll)));
+        f.push(format!("no-checksum-game={}", !self.no_checksum.is_empty()));
+        f.push(format!("diverging-game={}", self.diverge.is_some()));
+        f.push(format!("handshake-phase={}", self.handshake_phase));
+        f.push(format!("fps={}", if self.fps == 60 { "60" } else { "other" }));
+        for (name, pred) in [
+            ("die", (|a: &Action| matches!(a, Action::Die)) as fn(&Action) -> bool),
+            ("disconnect", |a| matches!(a, Action::Disconnect { .. })),
+            ("set-delay", |a| matches!(a, Action::SetDelay { .. })),
+            ("sleep", |a| matches!(a, Action::Sleep { .. })),
+            ("misuse-call", |a| matches!(a, Action::AdvanceWithoutInput | Action::AddInputFor { .. } | Action::NetStats { .. })),
+        ] {
+            f.push(format!("action-{name}={}", self.script.iter().any(|i| pred(&i.action))));
+        }
+        f.push(format!("outages={}", if self.outages.is_empty() { "none".to_owned() } else { cls(self.outages.iter().map(|o| o.len.max(0) as usize).max().unwrap_or(0), &[1, 9, 31, 61, 121]) }));
+        f.push(format!("scripted-fates={}", !self.scripted.is_empty()));
+        f.push(format!("scripted-stalls={}", !self.scripted_stalls.is_empty()));
+        f.push(format!("background-faults={}", self.background.loss_every + self.background.delay_every + self.background.stall_every > 0));
+        f.push(format!("injected-packets={}", !self.inject.is_empty()));
+        f.push(format!("link-latency-overrides={}", !self.link_lat.is_empty()));
+        f.push(format!("spectator-pauses={}", self.specs.iter().any(|s| !s.pauses.is_empty() || s.silent_from.is_some())));
+        let explored = if stateful { "stateful".to_owned() } else { format!("k={}", k.unwrap_or(0).min(3)) };
+        f.push(format!("exploration={explored}"));
+        f.push(format!("choice-points={}", match (self.fault.end > self.fault.start, self.fault.tick_alts > 0, !self.fault.link_rounds.is_empty()) {
+            (false, _, _) => "none",
+            (true, false, false) => "packets",
+            (true, true, false) => "packets+ticks",
+            (true, _, true) => "links",
+        }));
+        f.push(format!("long-run={}", cls((self.horizon + self.probe).max(0) as usize, &[70, 140, 400])));
+        f
     }
 }
